@@ -214,9 +214,14 @@ func runCheck(r *propRun) int {
 		}
 	}
 	// functions of this property
+	notes := map[string]bool{}
 	var cons []*Contract
 	for _, c := range eng.contracts {
 		if c.Extern || !contains(c.Props, r.prop) {
+			continue
+		}
+		if c.Opts["trusted"] != "" {
+			notes["trusted:"+c.FullKey] = true
 			continue
 		}
 		if r.funcOnly != "" && !strings.Contains(c.FullKey, r.funcOnly) {
@@ -236,7 +241,6 @@ func runCheck(r *propRun) int {
 	var texts []string
 	var funcErrs []string
 	funcs := []string{}
-	notes := map[string]bool{}
 	tGen0 := time.Now()
 	for _, c := range cons {
 		fr := eng.VerifyFunc(c)
@@ -436,6 +440,9 @@ func runCheck(r *propRun) int {
 	}
 	for _, x := range cat["pure"] {
 		assumptions = append(assumptions, "pure observer (uninterpreted function of its arguments; object assumed immutable): "+x)
+	}
+	for _, x := range cat["trusted"] {
+		assumptions = append(assumptions, "trusted (unverified) contract on repository function: "+x)
 	}
 	for _, x := range cat["havoc"] {
 		assumptions = append(assumptions, "unmodelled call, results arbitrary and heap forgotten: "+x)
